@@ -57,6 +57,8 @@ def load_unit(path):
     u.setdefault("assumed", [])
     u.setdefault("keep_bodies", [])
     u.setdefault("mode", "bounded")
+    if "cases_file" in u:
+        u["cases"] = json.load(open(os.path.join(VERIF, "units", u["cases_file"])))
     u.setdefault("cases", [{"name": "default", "defs": []}])
     u.setdefault("timeout", 600)
     u.setdefault("mem_gb", 10)
@@ -78,10 +80,31 @@ def post_labels(src):
 
 
 def discover(pid):
+    """units of the property's own directory plus shared units (any directory) that list it in "properties" """
     units = []
-    for p in sorted(glob.glob(os.path.join(VERIF, "units", pid, "*.c"))):
-        units.append(load_unit(p))
+    for p in sorted(glob.glob(os.path.join(VERIF, "units", "*", "*.c"))):
+        d = os.path.basename(os.path.dirname(p))
+        if d == "common":
+            continue
+        try:
+            u = load_unit(p)
+        except Infra:
+            if d == pid:
+                raise
+            continue
+        if u.get("property") == pid or pid in u.get("properties", []):
+            units.append(u)
     return units
+
+
+def label_owner(u, p):
+    """property a failed obligation is attributed to: labels Cxx_name belong to Cxx; other labels to the
+    unit's primary property; unlabeled (memory-safety / UB / frame) obligations to C08 when the unit serves C08"""
+    if "label" in p:
+        m = re.match(r"^(C\d\d)_", p["label"])
+        return m.group(1) if m else u["property"]
+    props = [u["property"]] + u.get("properties", [])
+    return "C08" if "C08" in props else None     # None = everybody
 
 
 # --------------------------------------------------------------------------
@@ -166,10 +189,53 @@ def job(u, case, tier, canary):
     return res
 
 
+CACHE = os.path.join(VERIF, ".cache")
+
+
+def cache_key(u, defs, extra):
+    """content hash of everything the verdict depends on: the preprocessed wrapper (it #includes the real
+    sources from the working tree), the tool options and the tool version"""
+    import hashlib
+    p = subprocess.run(["gcc", "-E", "-P"] + defs + INC + [u["path"]], capture_output=True)
+    if p.returncode != 0:
+        return None
+    h = hashlib.sha256()
+    h.update(p.stdout)
+    h.update(json.dumps(extra, sort_keys=True).encode())
+    h.update(b"cbmc-6.11.0 driver-v3")
+    return h.hexdigest()
+
+
 def _job(u, case, tier, canary, wd, res):
     defs = ["-DVERIF_CBMC", "-D" + GUARD] + ["-D" + d for d in tier_defs(u, tier) + case.get("defs", [])]
     if canary:
         defs.append("-DCANARY")
+    key = None
+    if not os.environ.get("VERIF_NO_CACHE"):
+        key = cache_key(u, defs, {k: u.get(k) for k in ("function", "replace", "unwind", "unwind_" + tier, "unwindset", "unwindset_" + tier,
+                                                         "object_bits", "solver", "extra_cbmc", "malloc_may_fail", "leak_check",
+                                                         "loop_contracts", "remove_function_pointers")})
+        cf_ = os.path.join(CACHE, (key or "x") + ".json")
+        if key and os.path.exists(cf_):
+            try:
+                c = json.load(open(cf_))
+                res.update(c)
+                res["cached"] = True
+                res["wd"] = wd
+                return
+            except Exception:
+                pass
+    _job_run(u, case, tier, canary, wd, res, defs)
+    if key and res["status"] in ("ok", "vacuous") and not any(p["status"] != "SUCCESS" for p in res["props"] if not canary):
+        os.makedirs(CACHE, exist_ok=True)
+        tmp = os.path.join(CACHE, "%s.%d.tmp" % (key, os.getpid()))
+        keep = {k: res[k] for k in ("status", "props", "solver_s", "checker_cmd") if k in res}
+        keep["props"] = [{k: v for k, v in p.items() if k != "trace"} for p in keep["props"]]
+        json.dump(keep, open(tmp, "w"))
+        os.replace(tmp, os.path.join(CACHE, key + ".json"))
+
+
+def _job_run(u, case, tier, canary, wd, res, defs):
     fn = u["function"]
     # the function must still exist in the file the unit names
     srcfile = os.path.join(REPO, u["source"])
@@ -521,7 +587,7 @@ def static_scan(u):
     return len(re.findall(r"__CPROVER_assume\s*\(", u["src"]))
 
 
-def check_property(pid, tier, only_unit=None, keep=False, no_canary=False):
+def check_property(pid, tier, only_unit=None, keep=False, no_canary=False, only_case=None):
     t0 = time.time()
     units = discover(pid)
     if only_unit:
@@ -536,8 +602,10 @@ def check_property(pid, tier, only_unit=None, keep=False, no_canary=False):
         for c in u["cases"]:
             if c.get("tier", "quick") == "thorough" and tier != "thorough":
                 continue
+            if only_case and c["name"] != only_case:
+                continue
             jobs.append((u, c, False))
-            if not no_canary and not u.get("no_canary"):
+            if not no_canary and not u.get("no_canary") and c.get("canary", True):
                 jobs.append((u, c, True))
     results = []
     with cf.ThreadPoolExecutor(max_workers=NCPU) as ex:
@@ -545,6 +613,7 @@ def check_property(pid, tier, only_unit=None, keep=False, no_canary=False):
         for f in cf.as_completed(futs):
             results.append((futs[f], f.result()))
     infra = []
+    foreign = []
     violations = []
     known_hits = []
     unit_ev = {}
@@ -576,6 +645,10 @@ def check_property(pid, tier, only_unit=None, keep=False, no_canary=False):
                 ev["discharged"] += 1
                 continue
             if p["status"] != "FAILURE":
+                continue
+            owner = label_owner(u, p)
+            if owner is not None and owner != pid:
+                foreign.append((u["unit"], c["name"], obligation_key(p), owner))
                 continue
             k = is_known(known, pid, u["unit"], p)
             if k:
@@ -629,6 +702,8 @@ def check_property(pid, tier, only_unit=None, keep=False, no_canary=False):
             "known_findings": ["%s: %s :: %s" % (a, b, d) for (a, _, b, d) in known_hits],
             "not_covered": meta.get("not_covered", []),
             "infra_errors": infra,
+            "failed_obligations_attributed_to_other_properties": sorted(set("%s/%s -> %s" % (a, k, o) for (a, _, k, o) in foreign)),
+            "results_reused_from_content_hash_cache": sum(1 for (_, r) in results if r.get("cached")),
             "exhaustive": False,
         },
         "assumptions": meta.get("assumptions", []) + ["assumed (never enforced) contract of " + a for a in assumptions],
@@ -678,6 +753,7 @@ def main():
     ap.add_argument("property", nargs="?")
     ap.add_argument("--tier", default=os.environ.get("VERIF_TIER", "quick"))
     ap.add_argument("--unit")
+    ap.add_argument("--case")
     ap.add_argument("--keep", action="store_true")
     ap.add_argument("--no-canary", action="store_true")
     ap.add_argument("--replay")
@@ -687,7 +763,7 @@ def main():
     if not a.property:
         ap.error("property id required")
     try:
-        rc = check_property(a.property, a.tier if a.tier in ("quick", "thorough") else "quick", a.unit, a.keep, a.no_canary)
+        rc = check_property(a.property, a.tier if a.tier in ("quick", "thorough") else "quick", a.unit, a.keep, a.no_canary, a.case)
     except Infra as e:
         print("INFRA: %s" % e)
         rc = 2
